@@ -855,13 +855,26 @@ class Sim:
                                                                     and obj in subtree(w.objs[i]))]
                 if cand and rng.random() < 0.5:
                     j = rng.choice(cand)
+                    deep = [i for i in cand if any(getattr(ch, "_children", None)
+                                                   for ch in getattr(w.objs[i], "_children", []))]
+                    is_deep = False
+                    if deep and rng.random() < 0.5:
+                        j = rng.choice(deep)  # a collection with grandchildren: flattened two levels deep
+                        is_deep = True
                     tname = type(w.objs[j]).__name__
                     typed = "sensors" if tname == "Sensor" else "collections" if tname == "Collection" else "sources"
                     bad = rng.choice([("position", [1.0, 2.0], "bad_position"), ("style_opacity", 7, "bad_opacity"),
                                       ("style_bogus", 1, "unknown_style_key")])
                     if rng.random() < 0.35:  # ... or a parent that is rejected (the parent is assigned last)
                         bad = ("parent", "$junk", "bad_parent")
-                    vs.append({"kind": "tree_then_bad", "tree_key": rng.choice(["children", typed]), "members": [j],
+                    keys = ["children", typed]
+                    if typed == "collections":
+                        # a collection given as `sources` / `sensors` is flattened: objects from deep inside it move
+                        keys += ["sources", "sensors"]
+                    key = rng.choice(keys)
+                    if is_deep and rng.random() < 0.7:
+                        key, bad = rng.choice(["sources", "sensors"]), ("parent", "$junk", "bad_parent")
+                    vs.append({"kind": "tree_then_bad", "tree_key": key, "members": [j],
                                "key": bad[0], "value": bad[1], "name": bad[2]})
             op["fail_variants"] = vs
         return op
